@@ -35,7 +35,13 @@ type chattyReader struct {
 	mismatch  atomic.Value // string: first CSeq / status mismatch
 	readErr   atomic.Value // error that ended the read loop before stop
 	expectMu  sync.Mutex
-	expecting []int // CSeqs of the requests in flight, in order
+	expecting []expected // the requests in flight, in order
+	refused   atomic.Int64
+}
+
+type expected struct {
+	cseq   int
+	status base.StatusCode
 }
 
 func startChatty(ts *rig.TestServer, sc scenario, desc *description.Session, path, name string) (*chattyReader, error) {
@@ -124,20 +130,18 @@ func (cr *chattyReader) readLoop() {
 			cr.Rd.OnPacket(v.Channel/2, pkt.PayloadType, &pkt)
 		case *base.Response:
 			cr.expectMu.Lock()
-			var want int
+			want := expected{cseq: -1}
 			if len(cr.expecting) > 0 {
 				want = cr.expecting[0]
 				cr.expecting = cr.expecting[1:]
-			} else {
-				want = -1
 			}
 			cr.expectMu.Unlock()
 			got := ""
 			if c := v.Header["CSeq"]; len(c) == 1 {
 				got = c[0]
 			}
-			if (want < 0 || got != fmt.Sprint(want) || v.StatusCode != base.StatusOK) && cr.mismatch.Load() == nil {
-				cr.mismatch.Store(fmt.Sprintf("response with status %d and CSeq %q, the oldest unanswered request has CSeq %d", v.StatusCode, got, want))
+			if (want.cseq < 0 || got != fmt.Sprint(want.cseq) || v.StatusCode != want.status) && cr.mismatch.Load() == nil {
+				cr.mismatch.Store(fmt.Sprintf("response with status %d and CSeq %q, the oldest unanswered request has CSeq %d and must be answered %d", v.StatusCode, got, want.cseq, want.status))
 			}
 			cr.answered.Add(1)
 		}
@@ -164,11 +168,21 @@ func (cr *chattyReader) chatLoop() {
 		if k%2 == 1 {
 			m = base.GetParameter
 		}
-		req := cr.p.Request(m, cr.url, base.Header{"Session": base.HeaderValue{cr.sess}}, nil)
+		h := base.Header{"Session": base.HeaderValue{cr.sess}}
+		want := base.StatusOK
+		if k%40 == 25 {
+			// a PLAY while playing that the application handler refuses (error status, no error):
+			// the session keeps playing and its media keeps flowing
+			m = base.Play
+			h["X-Verif-Refuse"] = base.HeaderValue{"403"}
+			want = base.StatusForbidden
+			cr.refused.Add(1)
+		}
+		req := cr.p.Request(m, cr.url, h, nil)
 		var cs int
 		fmt.Sscan(req.Header["CSeq"][0], &cs)
 		cr.expectMu.Lock()
-		cr.expecting = append(cr.expecting, cs)
+		cr.expecting = append(cr.expecting, expected{cs, want})
 		cr.expectMu.Unlock()
 		cr.wmu.Lock()
 		_ = cr.p.NC.SetWriteDeadline(time.Now().Add(ioTimeout))
